@@ -73,6 +73,7 @@ fn run_once(args: &[std::ffi::OsString], tmp: &std::path::Path, env: &[(String, 
         use std::os::unix::process::CommandExt;
         cmd.pre_exec(|| {
             libc::signal(libc::SIGINT, libc::SIG_DFL);
+            libc::prctl(libc::PR_SET_PDEATHSIG, libc::SIGKILL);
             Ok(())
         });
     }
